@@ -26,7 +26,7 @@ package stage
 //@   loop 0 decreases j - i
 
 //@ func companionPartExists
-//@   requires cmp != nil && wf(cmp.Parts)
+//@   requires cmp != nil ==> wf(cmp.Parts)
 //@   ensures  sound: result && beg < end ==> forall(x, beg, end, cov(cmp.Parts, x))
 //@   modifies nothing
 //@   loop 0 invariant walked-is-covered: beg <= cur && forall(x, beg, cur, cov(cmp.Parts, x))
@@ -34,7 +34,7 @@ package stage
 //@   loop 1 invariant walked-is-covered: beg <= cur && forall(x, beg, cur, cov(cmp.Parts, x))
 
 //@ func isCompanionComplete
-//@   requires cmp != nil && wf(cmp.Parts)
+//@   requires cmp != nil ==> wf(cmp.Parts)
 //@   ensures  sound: result ==> cmp.Size > 0 && forall(x, 0, cmp.Size, cov(cmp.Parts, x))
 //@   modifies nothing
 //@   loop 0 invariant -1 <= rangeindex && rangeindex <= len(cmp.Parts) - 2
@@ -211,3 +211,43 @@ package stage
 //@   before call os.Remove assert removes-only-empty-collected-dirs: len(entries) == 0 && lastret(os.ReadDir, 1) == nil && lastarg(os.ReadDir, 0) == arg0 && 0 <= i && i < len(dirs) && arg0 == dirs[i]
 //@   forbid call os.RemoveAll label no-recursive-delete
 //@   loop 0 invariant i < len(dirs)
+
+// ---------------------------------------------------------------- recovery after a restart (C06 C15 C01)
+
+//@ func (*Stage).setCanReceive
+//@   ensures s.canReceive == value
+//@   modifies s.canReceive
+//@ func (*Stage).Ready
+//@   ensures result == s.canReceive
+//@   modifies nothing
+//@ func (*Stage).pathToName trusted
+//@   modifies nothing
+//@ func (*Stage).toCache
+//@   modifies fields(file), allof(Stage), entries(s.cache), allof(finalFile)
+
+// the Walk callback is verified in the context of Recover
+//@ func (*Stage).Recover
+//@   before call path/filepath.Walk assert not-ready-for-duration: called((*Stage).setCanReceive) && lastarg((*Stage).setCanReceive, 1) == false && deferred((*Stage).setCanReceive) && ncalls((*Stage).setCanReceive) == 1
+//@   before call os.Rename assert not-ready-for-duration: ncalls((*Stage).setCanReceive) == 1 && lastarg((*Stage).setCanReceive, 1) == false
+//@   before call os.Remove assert not-ready-for-duration: ncalls((*Stage).setCanReceive) == 1 && lastarg((*Stage).setCanReceive, 1) == false
+//@   before call (*Stage).toCache assert not-ready-for-duration: ncalls((*Stage).setCanReceive) == 1 && lastarg((*Stage).setCanReceive, 1) == false
+//@   before call (*Stage).buildCache assert not-ready-for-duration: ncalls((*Stage).setCanReceive) == 1 && lastarg((*Stage).setCanReceive, 1) == false
+//@   before store finalize assert wait-body-is-finalized: lastarg(os.Stat, 0) == base+waitExt && !os.IsNotExist(lastret(os.Stat, 1)) && ncalls(os.Stat) == 1
+//@   before store validate assert full-or-complete-is-validated: (ncalls(os.Stat) == 2 && lastarg(os.Stat, 0) == base+fullExt && !os.IsNotExist(lastret(os.Stat, 1))) || (ncalls(os.Stat) >= 3 && called(isCompanionComplete) && lastret(isCompanionComplete, 0) && lastarg(isCompanionComplete, 0) == cmp && called(os.Rename) && lastret(os.Rename, 0) == nil && lastarg(os.Rename, 1) == base+fullExt)
+//@   before call os.Rename assert only-complete-partials-are-renamed: called(isCompanionComplete) && lastret(isCompanionComplete, 0) && lastarg(isCompanionComplete, 0) == cmp && arg1 == base+fullExt && ((ncalls(os.Stat) == 3 && arg0 == base+partExt && !os.IsNotExist(lastret(os.Stat, 1))) || (ncalls(os.Stat) == 4 && arg0 == base && !os.IsNotExist(lastret(os.Stat, 1))))
+//@   before call os.Remove assert orphan-companion-only: arg0 == path && ncalls(os.Stat) == 4 && os.IsNotExist(lastret(os.Stat, 1)) && os.IsNotExist(prevret(os.Stat, 1, 1)) && os.IsNotExist(prevret(os.Stat, 2, 1)) && os.IsNotExist(prevret(os.Stat, 3, 1)) && lastarg(os.Stat, 0) == base && prevarg(os.Stat, 1, 0) == base+partExt && prevarg(os.Stat, 2, 0) == base+fullExt && prevarg(os.Stat, 3, 0) == base+waitExt
+//@   before go (*Stage).finalizeQueue assert recovered-wait-bodies-are-validated: called((*Stage).toCache) && lastarg((*Stage).toCache, 2) == stateValidated && arg1 == lastarg((*Stage).toCache, 1)
+//@   forbid call (*Stage).finalize label no-direct-finalize
+//@   forbid call (*Stage).putFileAway label no-direct-delivery
+
+//@ func (*Stage).Recover$2
+//@   before call (*Stage).process assert recovered-are-revalidated: called((*Stage).toCache) && lastarg((*Stage).toCache, 2) == stateReceived && arg1 == lastarg((*Stage).toCache, 1)
+//@   forbid call (*Stage).finalize label no-direct-finalize
+//@   forbid go (*Stage).finalizeQueue label no-direct-finalize
+
+//@ func (*Stage).initStageFile
+//@   before call os.Remove assert stale-companion-only-if-unowned: arg0 == path+compExt && (cachedState == stateUnknown || cachedState == stateFailed) && lastarg((*Stage).getFileState, 1) == path
+//@   forbid call os.RemoveAll label no-recursive-delete
+
+//@ func (*Stage).Prepare
+//@   before call (*Stage).initStageFile assert prepare-under-lock: exclusive(lock) && arg1 == pathjoin(s.rootDir, lastret(sts.Binned.GetName, 0))
